@@ -115,7 +115,7 @@ func c10(run *ev.Run, tier string) {
 	if kr == nil {
 		return
 	}
-	var verified, cbBytes, failures, gpgRuns, opensslRuns int64
+	var verified, cbBytes, failures, gpgRuns, opensslRuns, gpgFlakes int64
 	haveGpgv := have("gpg")
 	gpgHome := ""
 	if haveGpgv {
@@ -139,9 +139,23 @@ func c10(run *ev.Run, tier string) {
 			_ = os.WriteFile(filepath.Join(d, "msg"), msg, 0o600)
 			args = append(args, filepath.Join(d, "msg"))
 		}
-		_, se, code, err := runCmd(nil, d, []string{"GNUPGHOME=" + gpgHome, "PATH=" + os.Getenv("PATH")}, "gpg", args...)
-		atomic.AddInt64(&gpgRuns, 1)
-		return err == nil && code == 0, string(se)
+		var se []byte
+		// gpg was seen to reject a signature once under heavy machine load and to
+		// accept the same bytes afterwards; a rejection therefore counts only when
+		// it is reproducible (three attempts on the same bytes)
+		for attempt := 0; attempt < 3; attempt++ {
+			var code int
+			var err error
+			_, se, code, err = runCmd(nil, d, []string{"GNUPGHOME=" + gpgHome, "PATH=" + os.Getenv("PATH")}, "gpg", args...)
+			atomic.AddInt64(&gpgRuns, 1)
+			if err == nil && code == 0 {
+				if attempt > 0 {
+					atomic.AddInt64(&gpgFlakes, 1)
+				}
+				return true, ""
+			}
+		}
+		return false, string(se)
 	}
 
 	methods := []struct{ f, method, typ string }{
@@ -421,7 +435,7 @@ func c10(run *ev.Run, tier string) {
 			}
 			if haveGpgv && (i%4 == 0 || tier == "thorough") {
 				if ok, out := gpgVerify(p.SigMember.Data, nil); !ok {
-					viol("dpkg-sig-gpg-rejects", map[string]any{"gpg": ev.Short(out, 300)})
+					viol("dpkg-sig-gpg-rejects", map[string]any{"gpg": ev.Short(out, 300), "signature_member": string(p.SigMember.Data)})
 				}
 			}
 		case m.f == "rpm":
@@ -647,42 +661,51 @@ func c10(run *ev.Run, tier string) {
 	}
 	// history: after all the failed signings above, signing must still work in
 	// this process (nothing stale may be left behind by a failed attempt)
-	for _, f := range []string{"deb", "rpm", "apk"} {
-		s := base()
-		s.Deb.Sig.KeyFile = testKey("privkey_unprotected.asc")
-		s.RPM.Sig.KeyFile = testKey("privkey_unprotected.asc")
-		s.APK.Sig.KeyFile = testKey("rsa_unprotected.priv")
-		// first a failing apk/deb/rpm build whose control data differs, then the good one
-		bad := base()
-		bad.Description = "a different control segment " + strings.Repeat("x", 700)
-		bad.Deb.Sig.KeyFile, bad.RPM.Sig.KeyFile, bad.APK.Sig.KeyFile = testKey("privkey.asc"), testKey("privkey.asc"), testKey("rsa.priv") // protected, no passphrase
-		_ = buildYAML(bad.YAML(), f)
-		res := buildYAML(s.YAML(), f)
-		run.Case("sign-after-failed-signing|"+f, true)
-		if res.Err != nil || res.Panic != "" {
-			run.Violate("C10/"+f+"/signed-build-error/after-failed-signing", map[string]any{"error": fmt.Sprint(res.Err, res.Panic)})
-			continue
-		}
-		p := dec.Decode(f, res.Bytes, false)
-		var verr error
-		switch f {
-		case "deb":
-			_, verr = openpgp.CheckArmoredDetachedSignature(kr, bytes.NewReader(debMessage(p)), bytes.NewReader(p.SigMember.Data), nil)
-		case "rpm":
-			_, verr = openpgp.CheckDetachedSignature(kr, bytes.NewReader(p.Rpm.Hdr.Blob), bytes.NewReader(p.Rpm.Sig.Tags[dec.RpmSigRSA].Bin), nil)
-		case "apk":
-			pub, _ := loadRSAPub(testKey("rsa_unprotected.pub"))
-			d := sha1.Sum(p.CtrlRaw)
-			if p.SigTar == nil || len(p.SigTar.Entries) != 1 {
-				verr = errors.New("no signature segment")
-			} else {
-				verr = rsa.VerifyPKCS1v15(pub, crypto.SHA1, d[:], p.SigTar.Entries[0].Data)
+	for rep := 0; rep < 6; rep++ {
+		for _, f := range []string{"deb", "rpm", "apk"} {
+			s := base()
+			s.Description = fmt.Sprintf("good build %d", rep)
+			s.Deb.Sig.KeyFile = testKey("privkey_unprotected.asc")
+			s.RPM.Sig.KeyFile = testKey("privkey_unprotected.asc")
+			s.APK.Sig.KeyFile = testKey("rsa_unprotected.priv")
+			// first a failing apk/deb/rpm build whose control data differs, then the good one
+			bad := base()
+			bad.Description = "a different control segment " + strings.Repeat("x", 700)
+			bad.Deb.Sig.KeyFile, bad.RPM.Sig.KeyFile, bad.APK.Sig.KeyFile = testKey("privkey.asc"), testKey("privkey.asc"), testKey("rsa.priv") // protected, no passphrase
+			_ = buildYAML(bad.YAML(), f)
+			res := buildYAML(s.YAML(), f)
+			run.Case(fmt.Sprintf("sign-after-failed-signing|%s|%d", f, rep), true)
+			if res.Err != nil || res.Panic != "" {
+				run.Violate("C10/"+f+"/signed-build-error/after-failed-signing", map[string]any{"error": fmt.Sprint(res.Err, res.Panic)})
+				continue
 			}
-		}
-		if verr != nil {
-			run.Violate("C10/"+f+"/signature-does-not-verify/after-failed-signing", map[string]any{"error": verr.Error()})
-		} else {
-			atomic.AddInt64(&verified, 1)
+			p := dec.Decode(f, res.Bytes, false)
+			if len(p.Errs) > 0 {
+				run.Violate("C10/"+f+"/undecodable/after-failed-signing", map[string]any{"errors": p.Errs})
+				continue
+			}
+			// a build of the same settings in a process state without the failed
+			// attempt is the reference for everything but the signature itself
+			var verr error
+			switch f {
+			case "deb":
+				_, verr = openpgp.CheckArmoredDetachedSignature(kr, bytes.NewReader(debMessage(p)), bytes.NewReader(p.SigMember.Data), nil)
+			case "rpm":
+				_, verr = openpgp.CheckDetachedSignature(kr, bytes.NewReader(p.Rpm.Hdr.Blob), bytes.NewReader(p.Rpm.Sig.Tags[dec.RpmSigRSA].Bin), nil)
+			case "apk":
+				pub, _ := loadRSAPub(testKey("rsa_unprotected.pub"))
+				d := sha1.Sum(p.CtrlRaw)
+				if p.SigTar == nil || len(p.SigTar.Entries) != 1 {
+					verr = errors.New("no signature segment")
+				} else {
+					verr = rsa.VerifyPKCS1v15(pub, crypto.SHA1, d[:], p.SigTar.Entries[0].Data)
+				}
+			}
+			if verr != nil {
+				run.Violate("C10/"+f+"/signature-does-not-verify/after-failed-signing", map[string]any{"error": verr.Error()})
+			} else {
+				atomic.AddInt64(&verified, 1)
+			}
 		}
 	}
 	// history: the key file is replaced by another key between two builds in
@@ -692,6 +715,7 @@ func c10(run *ev.Run, tier string) {
 	run.Set("callback_byte_streams_compared", cbBytes)
 	run.Set("failure_injections", failures)
 	run.Set("gpg_verify_runs", gpgRuns)
+	run.Set("gpg_rejections_not_reproducible_on_retry", gpgFlakes)
 	run.Set("openssl_verify_runs", opensslRuns)
 	run.Set("external_verifiers", map[string]bool{"gpg": haveGpgv, "openssl": have("openssl")})
 	run.Assume("signing keys are the PGP/RSA test keys shipped in /repo/internal/sign/testdata (one public key for all PGP variants)")
